@@ -10,6 +10,6 @@ package value
 //@   assigns caches
 //@   ensures result == vtype(self) && result != nil
 
-//@ # The name of a value is abstract state vname(v) (specs/llvm_ir.spec).
-//@ func iface Named.Name
-//@   ensures result == vname(self)
+//@ # The name of a named value is abstract state vname(v) (specs/llvm_ir.spec): the LocalName / GlobalName of its
+//@ # identifier. Name() is NOT under contract: it returns a display form (numeric names are wrapped in quotes,
+//@ # unnamed values give their ID); the parser reads names off Ident() instead (asm: iface local.Ident).
